@@ -13,9 +13,9 @@ EXPLANATION = (
     "digest(subject(e)) exactly under level < limit (ordering table over level <,=,> limit). C15.5: the predicate filter is "
     "eq(digest(as_predicate(subject(a))), digest(envelope(p))) over assertions(self); the single-result forms over "
     "len in {0,1,2} give {Nonexistent|None, first, Ambiguous}. C15.6: subject()/assertions() return the matched node's fields, "
-    "else self / empty; the case predicates is_<case>, is_subject_<case>, is_obscured and the accessors as_predicate/as_object/Assertion::predicate/object that all other rules treat as opaque have exactly their per-case tables. C15.7: query-family panic sites are in the C16 ledger. C15.2 also judges the level and parent the tree walk hands to each child kind, per valuation of `self is a node` (terms built with edge-sensitive reaching definitions); C15.4 also requires shallow_digests/deep_digests = digests(self, 2 / usize::MAX). Does not decide std collection semantics.")
+    "else self / empty; the case predicates is_<case>, is_subject_<case>, is_obscured and the accessors as_predicate/as_object/Assertion::predicate/object that all other rules treat as opaque have exactly their per-case tables. C15.7: query-family panic sites are in the C16 ledger. C15.2 also judges the level and parent the tree walk hands to each child kind, per valuation of `self is a node` (terms built with edge-sensitive reaching definitions); C15.4 also requires shallow_digests/deep_digests = digests(self, 2 / usize::MAX). C15.5 also: objects_for_predicate = the object of the subject of every matching assertion. C15.9: each generated TryFrom<Envelope> for T is try_into(try_leaf(envelope)?). Does not decide std collection semantics.")
 TRUSTED = ['Vec::len/is_empty/index, Iterator::filter/collect have std semantics']
-FLOORS = {'C15.1': 7, 'C15.2': 11, 'C15.3': 6, 'C15.4': 4, 'C15.5': 4, 'C15.6': 2}
+FLOORS = {'C15.1': 7, 'C15.2': 11, 'C15.3': 6, 'C15.4': 4, 'C15.5': 5, 'C15.9': 1, 'C15.6': 2}
 P1, P2, P3, P4, P5 = [('param', i) for i in range(1, 6)]
 EDGE = {'Node.subject': 'Subject', 'Node.assertions': 'Assertion', 'Assertion.predicate': 'Predicate', 'Assertion.object': 'Object', 'Wrapped.envelope': 'Wrapped'}
 
@@ -459,6 +459,53 @@ def check(ctx):
     single('assertion_with_predicate', 'Err:NonexistentPredicate')
     single('optional_assertion_with_predicate', 'None')
     single('optional_object_for_predicate', 'None')
+    # objects_for_predicate: the object of EVERY matching assertion, read through the assertion's subject (a decorated - salted,
+    # annotated - assertion is a node whose subject is the assertion): none dropped, none added
+    ofp = F.method1('Envelope', 'objects_for_predicate')
+    if ofp is None:
+        ctx.lost('C15.5', 'Envelope::objects_for_predicate')
+    else:
+        otb = TermBuilder(F, ofp)
+        ort = otb.return_term()
+        rblocks = [i for i in ofp.normal_blocks() if (ofp.term(i) or {}).get('k') == 'return']
+        parts = seq_norm(ort, ofp, rblocks[0] if rblocks else None)
+        good = False
+        if parts is not None and len(parts) == 1 and parts[0][0] == 'each':
+            v = parts[0][1]
+            u = m_call(v, name='unwrap') or m_call(v, name='expect')
+            o = m_call(strip_sites(u[0]), name='as_object', self_suffix='Envelope') if u is not None else None
+            sj = m_call(strip_sites(o[0]), name='subject', self_suffix='Envelope') if o is not None else None
+            el = strip_sites(sj[0]) if sj is not None else None
+            if el is not None and el[0] == 'elem':
+                src = m_call(strip_sites(detry(el[1])), name='assertions_with_predicate', self_suffix='Envelope')
+                good = src is not None and strip_sites(src[0]) == P1 and strip_sites(src[1]) == P2
+        if good:
+            ctx.ok('C15.5', ctx.site(ofp), 'objects_for_predicate = [object(subject(a)) for every a in assertions_with_predicate(self, p)] (one element per match, none skipped)')
+        else:
+            ctx.fail('C15.5', ctx.site(ofp), 'objects_for_predicate is not the object of the subject of every matching assertion (a decorated assertion would be dropped, or an element skipped): %s'
+                     % fmt(strip_sites(ort))[:300], key='C15.5|objects')
+    # ---------------- C15.9 typed conversions TryFrom<Envelope> for T (the `try_as` / `try_object_for_predicate` family): the value is
+    # the CBOR conversion of the envelope's own leaf, try_into(try_leaf(envelope)?) - a non-leaf (elided, node, wrapped, ..) is an error,
+    # never the value of something else (its subject's leaf, its own digest)
+    conv = [b for b in F.bodies if b.name == 'try_from' and 'TryFrom<' in (b.impl_trait_full or '') and 'Envelope>' in (b.impl_trait_full or '').replace(' ', '')
+            and b.span and b.span.get('file', '').endswith('envelope_decodable.rs')]
+    ctx.need('C15.9', len(conv) >= 20, 'TryFrom<Envelope> conversions generated in envelope_decodable.rs')
+    badc = []
+    for b in conv:
+        ctb = TermBuilder(F, b)
+        for bi, si, t in accept_sites(b, ctb):
+            v = strip_sites(detry(t))
+            if v[0] == 'agg' and v[2] == 'Ok' and v[3]:
+                v = strip_sites(detry(v[3][0]))
+            a = v[2][0] if v[0] == 'call' and call_name(v) in ('try_into', 'try_from') and len(v[2]) == 1 else None
+            lf = m_call(strip_sites(detry(a)), name='try_leaf', self_suffix='Envelope') if a is not None else None
+            if lf is None or strip_sites(lf[0]) != P1:
+                badc.append((b, bi, si, v))
+    for b, bi, si, v in badc[:6]:
+        ctx.fail('C15.9', ctx.site(b, bi, si), 'typed conversion %s returns %s, not the conversion of the envelope\'s own leaf (try_into(try_leaf(envelope)?)): a non-leaf envelope can '
+                 'yield a value that was never stored' % ((b.impl_self or '?').split('::')[-1], fmt(v)[:160]), key='C15.9|' + (b.impl_self or b.path))
+    if conv and not badc:
+        ctx.ok('C15.9', ctx.site(conv[0]), '%d typed conversions TryFrom<Envelope> for T are try_into(try_leaf(envelope)?)' % len(conv), sample=str(len(conv)))
     # ---------------- C15.6 accessors
     for name, field, default in (('subject', 'subject', 'self'), ('assertions', 'assertions', 'empty')):
         b = F.method1('Envelope', name)
